@@ -28,9 +28,9 @@ ASSUMPTIONS = ['sim network = class-constant overrides only (max_target 2^255-1,
                'reference retarget rule transcribed from lbrycrd src/lbry.cpp with exact integer arithmetic; cross-checked on the 20 real main-net headers',
                'a crash is modelled by its effect on the file (cut at byte b / header bytes overwritten); the real close() writes the whole buffer in place']
 REQUIRED_HITS = ['V1.valid_batch_stored', 'V2.invalid_batch_checked', 'V2.rule.link', 'V2.rule.bits', 'V2.rule.pow', 'V2.rule.genesis',
-                 'V3.chain_validated', 'V4.genuine', 'V4.mismatch', 'V4.uncheckpointed', 'V5.retarget_checked', 'V5.clamp_low', 'V5.clamp_high',
+                 'V3.chain_validated', 'V4.genuine', 'V4.overlong_reply', 'V4.mismatch', 'V4.uncheckpointed', 'V5.retarget_checked', 'V5.clamp_low', 'V5.clamp_high',
                  'op.fork', 'op.fork_shorter_than_old_tail', 'op.extend_stale_tail', 'op.split', 'op.reconnect', 'op.beyond_tip', 'mainnet.accepted', 'mainnet.alteration_rejected',
-                 'W.cut_checked', 'W.overwrite_checked', 'W.cut_mid_header', 'W.damage.tip', 'W.damage.interior', 'W.damage.deep_below_tip', 'W.real_persist']
+                 'W.cut_checked', 'W.overwrite_checked', 'W.cut_mid_header', 'W.damage.tip', 'W.damage.interior', 'W.damage.deep_below_tip', 'W.real_persist', 'W.session_reopened', 'W.session_closed', 'W.session_fork_below_size_at_open']
 MAXT = (1 << 255) - 1
 HS = 112
 _S = {}
@@ -132,6 +132,8 @@ def gen_cases(rng, tier, shard, nshards):
             for kind in ['random', 'partial-link', 'partial-nonlink']:
                 deep.append({'fam': 'overwrite', 'tail': t, 'pos': f'depth:{depth}', 'kind': kind, 'seed': rng.getrandbits(32)})
     fams.append(deep)
+    # several sessions on one real header file (added after seeded break C07-F: close() that only rewrites "what changed")
+    fams.append([{'fam': 'sessions', 'seed': rng.getrandbits(48), 'ck': i % 2 == 1} for i in range(3 if q else 60)])
     # round-robin so that every family is reached early even when the budget is cut short on a loaded machine
     weights = {'overwrite': 12}
     while any(fams):
@@ -465,7 +467,7 @@ async def _fam_checkpoint(rec, case):
     def serve(chunk):
         c = zlib.compressobj(wbits=-15)
         return {'base64': base64.b64encode(c.compress(chunk) + c.flush()).decode()}
-    for mode in ['genuine', 'one-byte', 'prefix-only', 'uncheckpointed']:
+    for mode in ['genuine', 'one-byte', 'prefix-only', 'uncheckpointed', 'overlong-genuine-extras', 'overlong-junk-extras']:
         h = Ck(':memory:')
         await h.open()
         pre, pre_missing = _buf(h), set(h.known_missing_checkpointed_chunks)
@@ -482,6 +484,12 @@ async def _fam_checkpoint(rec, case):
         elif mode == 'uncheckpointed':
             height = r.randrange(1000, 1085)
             chunk = data[1000 * HS:]
+        elif mode == 'overlong-genuine-extras':
+            chunk = data[:(1000 + r.choice([1, 5, 60])) * HS]         # the genuine chunk followed by the genuine next headers
+        elif mode == 'overlong-junk-extras':
+            extra = bytearray(data[1000 * HS:(1000 + r.choice([1, 3])) * HS])
+            extra[r.randrange(len(extra))] ^= 1 << r.randrange(8)
+            chunk = data[:1000 * HS] + r.choice([bytes(extra), r.randbytes(HS), r.randbytes(50)])
 
         async def getter(start, _c=chunk):
             return serve(_c)
@@ -496,6 +504,15 @@ async def _fam_checkpoint(rec, case):
             rec.hit('V4.genuine')
             if post[:1000 * HS] != data[:1000 * HS] or 0 in post_missing or exc:
                 rec.violation('C07/V4/genuine-checkpoint-chunk-refused', f'genuine chunk not stored (exc={exc!r})', {'height': height})
+        elif mode.startswith('overlong'):
+            # the reply as a whole does not hash to the checkpoint.  Refusing it (what the code does) is right; keeping the first 1000 and
+            # dropping the rest would be too; storing the extra headers - which nothing validated - is not
+            rec.hit('V4.overlong_reply')
+            if post[1000 * HS:] != pre[1000 * HS:] or len(h) > 1000:
+                rec.violation(f'C07/V4/unvalidated-headers-stored-behind-checkpointed-chunk/{mode}',
+                              f'a {len(chunk) // HS}-header reply for the checkpointed chunk was accepted: len(headers) is now {len(h)}, '
+                              f'{(len(post) - 1000 * HS) // HS} header(s) stored behind the chunk without any check', {'mode': mode, 'len': len(h)})
+            rec.log('V4.overlong_reply_' + ('refused' if post == pre else 'first_1000_kept'))
         else:
             rec.hit('V4.mismatch' if mode != 'uncheckpointed' else 'V4.uncheckpointed')
             if post != pre or post_missing != pre_missing:
@@ -572,6 +589,82 @@ def _judge_reopen(rec, label, key_suffix, n, buf, missing, original, keep_at_lea
                       f'{label}: reopened chain has {n} headers, at least {keep_at_least} undamaged ones should remain', dict(witness, loaded=n))
         ok = False
     return ok
+
+
+async def _fam_sessions(rec, case):
+    """open / connect ... / close repeated on ONE real file: what close() leaves on disk is what was stored, and what the next
+    open() loads is a valid prefix of it - also when a later session rewrote headers BELOW the size the file had when it was opened
+    (a fork at a lower height), extended the chain, or did both."""
+    r = random.Random(case['seed'])
+    ck = case['ck']
+    cls = _S['SimCk'] if ck else _S['Sim']
+    chain = _S['chain']
+    path = os.path.join(_S['tmp'], 'sess-%d' % case['seed'])
+    if os.path.exists(path):
+        os.unlink(path)
+    floor = 1000 if ck else 1
+    cur = list(chain[:r.choice([1005, 1040, 1200]) if ck else r.choice([30, 200, 1040])])
+    stored = disk = None
+    kinds = []
+    nsess = r.randrange(2, 5)
+    for sess in range(nsess + 1):
+        h = cls(path)
+        await h.open()
+        try:
+            n, loaded = len(h), _buf(h)
+            if stored is not None:
+                rec.hit('W.session_reopened')
+                # first height (above the checkpointed chunk) where the stored bytes themselves stop linking: a stale tail after a
+                # shorter fork is such a seam, and everything from one before it may be dropped
+                # (judged on the FILE: close() rewrites in place without truncating, so after a start-up repair shortened the chain the
+                # file keeps the old bytes behind the stored chain; the next start-up sees them as a damaged header right behind the tip
+                # and drops the tip with them - within "from one before the first damaged header onwards", logged below)
+                nd = len(disk) // HS
+                seam = next((k for k in range(max(floor, 1), nd) if disk[k * HS + 4:k * HS + 36] != R.header_hash(disk[(k - 1) * HS:k * HS])), None)
+                keep = nd if seam is None else seam - 1
+                if n < len(stored) // HS and seam is not None and seam >= len(stored) // HS:
+                    rec.log('W.clean_restart_dropped_the_tip_because_the_file_keeps_old_bytes_behind_the_chain')
+                if not _judge_reopen(rec, f'session {sess} after {kinds}', 'sessions/' + ('fork-below-size-at-open' if 'fork' in kinds[-1] else kinds[-1]),
+                                     n, loaded, set(h.known_missing_checkpointed_chunks), stored, keep, {'sessions': kinds, 'checkpointed': ck}):
+                    return
+                cur = [loaded[i * HS:(i + 1) * HS] for i in range(n)]
+            if sess == nsess:
+                break
+            if stored is None:
+                ops = ['first']
+                added = await h.connect(0, b''.join(cur))
+                if added != len(cur):
+                    raise RuntimeError('harness: base chain refused')
+            else:
+                ops = r.choice([['fork'], ['fork', 'extend'], ['extend'], ['extend', 'fork'], ['fork', 'fork'], []])
+                for op in ops:
+                    L = len(cur)
+                    if op == 'extend':
+                        nxt = build_chain(r, r.choice([1, 3, 40]), chain=cur, fork_at=L)[L:]
+                        if await h.connect(L, b''.join(nxt)) == len(nxt):
+                            cur = cur + list(nxt)
+                    elif L > floor + 1:
+                        f = r.randrange(max(floor, L - 60), L)
+                        branch = build_chain(r, r.choice([1, 2, L - f, L - f + 3, 10]), chain=cur, fork_at=f)[f:]
+                        if await h.connect(f, b''.join(branch)) == len(branch):
+                            cur = cur[:f] + list(branch)
+                            rec.hit('W.session_fork_below_size_at_open')
+            kinds.append('+'.join(ops) or 'nothing')
+            stored = _buf(h)
+        finally:
+            await h.close()
+        with open(path, 'rb') as f_:
+            disk = f_.read()
+        rec.hit('W.session_closed')
+        if disk[:len(stored)] != stored:
+            d = next(i for i in range(len(stored)) if i >= len(disk) or disk[i] != stored[i])
+            rec.violation('C07/W/persisted-file-differs/' + ('after-fork-below-size-at-open' if 'fork' in kinds[-1] else 'after-' + kinds[-1]),
+                          f'session {sess} ({kinds[-1]}): after close() the file differs from the {len(stored) // HS} stored headers at byte {d} '
+                          f'(header {d // HS}); file has {len(disk)} bytes', {'sessions': kinds, 'checkpointed': ck, 'header': d // HS})
+            return
+        if len(disk) > len(stored):
+            rec.log('W.file_longer_than_stored_chain')
+    rec.case(['sessions', ck, kinds], nontrivial=True, sample={'family': 'sessions', 'checkpointed': ck, 'sessions': kinds, 'final_len': len(cur)})
 
 
 async def _fam_cut(rec, case):
